@@ -755,6 +755,8 @@ def reuse_case(perm):
             return np.array(oq.compute_dynamics(sysm, M.RHO_GEN2, process_tensor=p, progress_type="silent").states).ravel()
         if name == "dynamics":
             return np.array(oq.compute_dynamics(tds, M.RHO_GEN2, process_tensor=pt, start_time=0.3, progress_type="silent").states).ravel()
+        if name == "dynamics-late":      # the same time-dependent system and process tensor, another start time
+            return np.array(oq.compute_dynamics(tds, M.RHO_GEN2, process_tensor=pt, start_time=1.9, progress_type="silent").states).ravel()
         if name == "controlled":
             return np.array(oq.compute_dynamics(sysm, M.RHO_GEN2, process_tensor=pt, control=ctrl, progress_type="silent").states).ravel()
         if name == "correlations":
@@ -1005,9 +1007,15 @@ def run(tier, seed):
         nl += r["n"]
         for cls, what in r["vio"]:
             rep.add(Violation(cls, what, {"part": "ptupdate", "args": [j[0], j[1], list(j[2])]}))
-    comps = ["tempo", "tempo-td", "pttempo", "dynamics", "correlations", "controlled", "controlled"]
+    comps = ["tempo", "tempo-td", "pttempo", "dynamics", "dynamics-late", "correlations", "controlled", "controlled"]
     allp = sorted(set(itertools.permutations(comps)))
-    perms = allp[::6] if tier == "thorough" else [p for p in allp if p[0] in ("tempo", "pttempo", "dynamics", "controlled")][::40]
+    perms = allp[::48] if tier == "thorough" else [p for p in allp if p[0] in ("tempo", "pttempo", "dynamics", "controlled")][::320]
+    # every ordered pair of computations next to each other at the start of some order (pairwise coverage of "B after A")
+    firsts = set(p[:2] for p in perms)
+    for a_, b_ in itertools.permutations(sorted(set(comps)), 2):
+        if (a_, b_) not in firsts:
+            perms.append((a_, b_) + tuple(c for c in comps if c not in (a_, b_)) + (("controlled",) if "controlled" in (a_, b_) else ()))
+            firsts.add((a_, b_))
     rres = pmap(reuse_case, perms, seed=seed)
     for p, r in zip(perms, rres):
         trans += r["n"]
@@ -1046,7 +1054,8 @@ def run(tier, seed):
                 "of up to 3 (thorough 4) queries out of 8 (correlations at 6 time pairs, 2 occupations) on one TwoTimeBathCorrelations "
                 "object, optionally starting from a caller-supplied shorter table, each answer compared with a fresh object; process-tensor update: 4 kinds x "
                 "{in-memory, file-backed} x 5 use/get prefixes, then all tensors are replaced and the object must behave like a fresh one; reuse: orders of 7 computations (5 kinds + the same stacked Control object used twice) on "
-                "shared objects, a regular sub-sample of the 2520 distinct orders (quick every 40th, thorough every 6th); resolution: every "
+                "shared objects, a regular sub-sample of the 20160 distinct orders of 8 computations (quick every 320th, thorough every "
+                "48th) completed so that every ordered pair of computations starts some order; resolution: every "
                 "ordered selection of 3 (thorough 4) out of 7 computations at two different time steps on shared system / bath objects",
         "samples": [{"kind": jobs[(17 * seed) % len(jobs)][0], "history": list(jobs[(17 * seed) % len(jobs)][1])},
                     {"layout": ["AugmentedMPS.gamma(rank2)", "T-view"]}, {"reuse": list(perms[0])}],
